@@ -675,7 +675,13 @@ class Formatter:
                     acc.append(self.dispatch(s, precedence["select"]))
         param = ", ".join(acc)
         if "top" in json:
-            top = self.dispatch(json["top"])
+            top = json["top"]
+            if isinstance(top, dict) and top.get("ties"):
+                # TOP n [PERCENT] WITH TIES
+                value = top["percent"] if "percent" in top else top["value"]
+                percent = " PERCENT" if "percent" in top else ""
+                return f"SELECT TOP ({self.dispatch(value)}){percent} WITH TIES {param}"
+            top = self.dispatch(top)
             return f"SELECT TOP ({top}) {param}"
         if "distinct_on" in json:
             return param
